@@ -18,6 +18,10 @@ def BiCGSTAB_reset(Op,rhs,x0,eps=1e-6,nmax=40):
     # initial residual
     r = rhs - Op.matvec(x0)
     
+    # x0 already solves the system: no shadow residual with <r,r0p> != 0 exists
+    if tn.linalg.norm(r) == 0:
+        return x0, True, 0, tn.linalg.norm(r)
+    
     # choose rop
     r0p = tn.rand(r.shape,dtype = x0.dtype)
     while tn.dot(r.squeeze(),r0p.squeeze()) == 0:
